@@ -181,6 +181,8 @@ def run(ctx):
             grid = list(itertools.product(range(0, L + 1), range(0, L + 1), [True, False]))  # max_epochs <= len(history)
             if ctx.quick and L >= 4:
                 grid = [g for g in grid if r.random() < 0.35]
+            elif not ctx.quick and L >= 6:  # 720 histories x 98 settings: sample a quarter (the full product takes ~50 min)
+                grid = [g for g in grid if r.random() < 0.25]
         else:
             grid = [(int(r.integers(0, 5)), int(r.integers(0, L + 1)), bool(r.integers(0, 2))) for _ in range(3)]
         for P, m, rb in grid:
